@@ -12,7 +12,7 @@ from fractions import Fraction
 
 import numpy as np
 
-from harness import engine
+from harness import engine, memo
 
 PROP = "C09"
 LEVEL = "model_checking"
@@ -167,6 +167,7 @@ def run(rep: engine.Report, tier: str, seed: int):
                    nontrivial_key=(e["op"], e["subs"], e["keys"], e["n_set"], e["seed"]))
         rep.count(e["op"])
     rep.traces_validated = len(sel)
+    memo.run_family(rep, ["batch_average_grow"])
     rep.exhaustive = len(sel) == len(cases)
     rep.rule = (
         "TLC enumerates molecule counts 1..6 x single/batch/mock x distinct/coinciding markers x 3 group-key patterns x "
